@@ -316,10 +316,14 @@ fn react(led: &Led, kn: &Knobs, server: usize, health: Health, via: Via, req: &[
             fault(led, scope.clone(), if via == Via::Dgram { "fault.d.other_q" } else { "fault.s.other_q" });
             let t = issue(led, None, "other_question", via, server);
             let other = format!("x{}.sim.", k.unwrap_or(9999));
-            let b = match sim::draw("peer.otherq_kind", 3) {
+            let b = match sim::draw("peer.otherq_kind", 5) {
                 0 => dns::mk_reply_other_question(p.id, &other, t),
                 1 => dns::mk_reply_other_question_rc(p.id, &other, None, Rcode::REFUSED),
-                _ => dns::mk_reply_other_question_rc(p.id, &other, None, Rcode::SERVFAIL),
+                2 => dns::mk_reply_other_question_rc(p.id, &other, None, Rcode::SERVFAIL),
+                // Right id, records - and no question at all, or the right
+                // question followed by a second one: not this request's answer.
+                3 => dns::mk_reply_odd_question_section(req, t, false),
+                _ => dns::mk_reply_odd_question_section(req, t, true),
             };
             let d = junk_delay(base_delay);
             r.out.push((b, d));
@@ -1254,6 +1258,13 @@ fn check(led: &Led, kn: &Knobs, total: usize, finished: bool, connect_faults: &[
                 }
             }
             Outcome::Abandoned => {}
+            Outcome::Err(e) if kn.kind == Kind::DgramStream && l.tc_sent_for.contains(&k) && l.stream_faults == 0 && connect_faults.is_empty() && kn.n_servers == 1 => {
+                // A truncated datagram answer is retried over the stream,
+                // with the stream's own budget: with a healthy stream side
+                // that attempt succeeds, however long the datagram phase took.
+                sim::violation(P, "tc-fallback", "failed-although-the-stream-side-was-healthy".to_string(), format!("request k={} got a truncated datagram answer and then failed with {} although nothing disturbed the stream side", k, e));
+                return;
+            }
             Outcome::Err(e) => {
                 // Orderly-close mode: the only disturbance of the run is a
                 // peer that closes its side right behind complete answers.
